@@ -188,14 +188,12 @@ example :
   · obtain ⟨fm, bs, v', h1, h2, h3⟩ := flowMod_history_sent 7 0 0 0 Gen.openflow13.FC_ADD 0 0 100 4294967295
       Gen.openflow13.P_ANY Gen.openflow13.OFPG_ANY 0 exMatch [InstrGotoTable.new 2, exApply] hm his
     have e1 : foldAdd FlowMod.addInstruction exStart [InstrGotoTable.new 2, exApply] = .ok fm := h1
-    have e2 : fm = _ := by
-      have := flowMod_fold [InstrGotoTable.new 2, exApply] _ _ _ _ _ _ _ _ _ _ _ _ _ exMatch []
-      rw [show exStart = _ from rfl] at e1
-      rw [this] at e1
-      exact (Res.ok.inj e1).symm
-    subst e2
+    have e2 := h1
+    rw [flowMod_fold] at e2
+    have e3 := Res.ok.inj e2
+    subst e3
     have hc : (FlowMod.marshalM _).map (fun r => (r.1.take 8, r.1.length)) = .ok ([4, 14, 0, 120, 0, 0, 0, 7], 120) :=
-      (by decide +kernel : (FlowMod.marshalM (.obj "FlowMod" [.obj "Header" [.num 4, .num Gen.openflow13.Type_FlowMod, .num 8,
+      (by decide +kernel : (FlowMod.marshalM (.obj "FlowMod" [.obj "Header" [.num Gen.openflow13.VERSION, .num Gen.openflow13.Type_FlowMod, .num 8,
         .num (n32 7).toNat], .num 0, .num 0, .num 0, .num Gen.openflow13.FC_ADD, .num 0, .num 0, .num 100, .num 4294967295,
         .num Gen.openflow13.P_ANY, .num Gen.openflow13.OFPG_ANY, .num 0, .bytes [], exMatch,
         .list ([] ++ [InstrGotoTable.new 2, exApply])])).map (fun r => (r.1.take 8, r.1.length)) = .ok ([4, 14, 0, 120, 0, 0, 0, 7], 120))
